@@ -384,6 +384,70 @@ def run_object_history(block, ctx):
     ctx.obs(block[0], block[-1])
     ctx.sample(block[0])
 
+# -- two objects related by copying: histories of observers and mutators applied to either ---------------------
+
+PAIR_MAKERS = ["copy_ctor", "set_from", "copy_then_copy"]
+PAIR_OPS = [("dms_tuple",), ("ra_tuple",), ("dms_str",), ("ra_str",), ("to_positive",), ("set", 272.68),
+            ("set_ra", 5.5), ("set_radians", -1e-18)]
+
+
+def pair_history_cases(tier):
+    import itertools
+    depth = 4 if tier == "thorough" else 3
+    ops = [(t,) + o for t in (0, 1) for o in PAIR_OPS]
+    return [{"start": x, "maker": mk, "history": [list(o) for o in h]} for x in (-87.32, -5e-324, 15.25)
+            for mk in PAIR_MAKERS for d in range(1, depth + 1) for h in itertools.product(ops, repeat=d)]
+
+
+def check_pair_history(case):
+    """a = Angle(start); b is made from a by the copy constructor (or set(a), or a copy of a copy); each step
+    applies an observer or a mutator to one of the two; after every step the tuples and strings of BOTH objects are
+    judged absolutely for the value each holds."""
+    a = Angle(case["start"])
+    if case["maker"] == "copy_ctor":
+        b = Angle(a)
+    elif case["maker"] == "set_from":
+        b = Angle(1.0)
+        b.dms_tuple()
+        b.set(a)
+    else:
+        b = Angle(Angle(a))
+    objs = (a, b)
+    out = []
+    for k, op in enumerate(case["history"]):
+        try:
+            _oh_apply(objs[op[0]], tuple(op[1:]))
+            for i, o in enumerate(objs):
+                v = o._deg
+                for ra in (False, True):
+                    out += [("pair_" + s_, "after %r on the pair (%s of Angle(%r)), object %d (value %r): %s"
+                             % (case["history"][:k + 1], case["maker"], case["start"], i, v, m))
+                            for s_, m in check_tuple(v, ra, obj=o)]
+                    if -360.0 < v < 360.0:
+                        out += [("pair_" + s_, "after %r on the pair (%s of Angle(%r)), object %d (value %r): %s"
+                                 % (case["history"][:k + 1], case["maker"], case["start"], i, v, m))
+                                for s_, m in check_string(v, ra, True, 3, obj=o)]
+        except Exception as ex:
+            out.append(("pair_exception", "history %r on the pair (%s of Angle(%r)) raised %r"
+                        % (case["history"][:k + 1], case["maker"], case["start"], ex)))
+        if out:
+            break
+    return out
+
+
+def run_pair_history(block, ctx):
+    for case in block:
+        ctx.evals += 8 * len(case["history"])
+        ctx.transitions += len(case["history"])
+        ctx.traces += 1
+        ctx.nt_count += 1
+        res = check_pair_history(case)
+        for site, msg in res:
+            ctx.viol(case, msg, site=site)
+        ctx.outcome((case["maker"], case["history"][-1][1], len(res)))
+    ctx.obs(block[0], block[-1])
+    ctx.sample(block[0])
+
 
 def replay(case):
     return [m for _, m in check_value(case["value"])]
@@ -394,6 +458,8 @@ def clauses(tier):
     out = [Clause("lattice", chunks(lattice(), 64), run_values, replay, floor=2000),
            Clause("tolerance_history", chunks(crit, 32), run_values_tol,
                   lambda c: [m for _, m in check_value_tol(c["value"])], floor=1000, shape="H")]
+    out.append(Clause("pair_history", chunks(pair_history_cases(tier), 32), run_pair_history,
+                      lambda c: [m for _, m in check_pair_history(c)], floor=5000, shape="H"))
     out.append(Clause("object_history", chunks(object_history_cases(tier), 32), run_object_history,
                       lambda c: [m for _, m in check_object_history(c)], floor=1000, shape="H"))
     if tier == "thorough":
